@@ -101,6 +101,8 @@ func (ca *CommitsAnalysis) Description() string {
 // calls. The repository which is going to be analysed is supplied as an argument.
 func (ca *CommitsAnalysis) Initialize(repository *git.Repository) error {
 	ca.l = core.NewLogger()
+	// start a new listing; the previous result may still alias the old slice
+	ca.commits = nil
 	return nil
 }
 
